@@ -199,4 +199,83 @@ def allowed (c : Codec) (cs : Nat) (m : Meth) (resumed : Bool) (o : Out) : Bool 
       (o == (.susp, cs) || o == (.err, cs) || states.any fun s => (next c s m).contains o)
   else (next c cs m).contains o
 
+/-! ### the source text the automaton was written from (op `cssrc`)
+
+For every function of an image decoder that reads or writes `this.call_sequence`: the `if`/`else if`
+chains one of whose conditions mentions the field (whole, so the statuses returned in the branches are
+included) and the other statements that mention it, in source order, separated by ` | `, with
+`this.call_sequence` written `cs` and the position test of a restart written `POS`. The harness
+extracts the same text from the working tree's std/*/*.wuffs on every run (harness/cmd/c08/cssrc.go);
+the classes are `gif`, `png`, `nie`, `still` (the eleven single-frame decoders, whose text is
+identical) and `bmp` (only its `do_decode_image_config`, which also looks at `io_redirect_fourcc`). -/
+
+def srcShape (cls fn : String) : String :=
+  match cls, fn with
+  | "bmp", "do_decode_image_config" =>
+    "if (cs <> 0x00) or (this.io_redirect_fourcc == 1) { return base.\"#bad call sequence\" } else if this.io_redirect_fourcc <> 0 { return base.\"@I/O redirect\" } | cs = 0x20"
+  | "gif", "decode_ae" =>
+    "if is_animexts or is_netscape { block_size = args.src.read_u8?() if block_size <> 3 { args.src.skip_u32?(n: block_size as base.u32) break.goto_done } c8 = args.src.read_u8?() if c8 <> 0x01 { args.src.skip_u32?(n: 2) break.goto_done } this.num_animation_loops_value = args.src.read_u16le_as_u32?() this.seen_num_animation_loops_value = true if (0 < this.num_animation_loops_value) and (this.num_animation_loops_value <= 0xFFFF) { this.num_animation_loops_value += 1 } } else if cs >= 0x20 { } else if is_iccp and this.report_metadata_iccp { this.metadata_fourcc = 'ICCP'be this.metadata_io_position = args.src.position() cs = 0x10 return base.\"@metadata reported\" } else if is_xmp and this.report_metadata_xmp { this.metadata_fourcc = 'XMP 'be this.metadata_io_position = args.src.position() cs = 0x10 return base.\"@metadata reported\" }"
+  | "gif", "decode_up_to_id_part1" =>
+    "cs = 0x60"
+  | "gif", "do_decode_frame" =>
+    "if cs == 0x40 { } else if cs < 0x40 { this.do_decode_frame_config?(dst: nullptr, src: args.src) } else { return base.\"@end of data\" } | cs = 0x20"
+  | "gif", "do_decode_frame_config" =>
+    "if (cs & 0x10) <> 0 { return base.\"#bad call sequence\" } else if cs == 0x20 { } else if cs < 0x20 { this.do_decode_image_config?(dst: nullptr, src: args.src) } else if cs == 0x28 { if POS <> args.src.position() { return base.\"#bad restart\" } } else if cs == 0x40 { this.skip_frame?(src: args.src) if cs >= 0x60 { return base.\"@end of data\" } } else { return base.\"@end of data\" } | if (this.num_decoded_frame_configs_value > 0) or (cs == 0x28) { this.decode_up_to_id_part1?(src: args.src) if cs >= 0x60 { return base.\"@end of data\" } } | cs = 0x40"
+  | "gif", "do_decode_image_config" =>
+    "if cs <> 0x00 { return base.\"#bad call sequence\" } else if not this.seen_header { this.decode_header?(src: args.src) this.decode_lsd?(src: args.src) this.seen_header = true } | if cs == 0x00 { cs = 0x20 }"
+  | "gif", "do_tell_me_more" =>
+    "if (cs & 0x10) == 0 { return base.\"#bad call sequence\" } | cs &= 0xEF"
+  | "gif", "restart_frame" =>
+    "if cs < 0x20 { return base.\"#bad call sequence\" } else if args.io_position == 0 { return base.\"#bad argument\" } | cs = 0x28"
+  | "gif", "set_quirk" =>
+    "if (cs == 0x00) and (args.key >= QUIRKS_BASE) { args.key -= QUIRKS_BASE if args.key < QUIRKS_COUNT { this.quirks[args.key] = args.value > 0 return ok } }"
+  | "gif", "skip_frame" =>
+    "cs = 0x20"
+  | "nie", "decode_animation_info" =>
+    "cs = 0x60"
+  | "nie", "do_decode_frame" =>
+    "if cs == 0x40 { } else if cs < 0x40 { this.do_decode_frame_config?(dst: nullptr, src: args.src) } else { return base.\"@end of data\" } | cs = 0x20 | cs = 0x60"
+  | "nie", "do_decode_frame_config" =>
+    "if cs == 0x20 { } else if cs < 0x20 { this.do_decode_image_config?(dst: nullptr, src: args.src) } else if cs == 0x28 { if POS <> args.src.position() { return base.\"#bad restart\" } } else if cs == 0x40 { this.skip_frame?(src: args.src) } else { return base.\"@end of data\" } | cs = 0x40"
+  | "nie", "do_decode_image_config" =>
+    "if cs <> 0x00 { return base.\"#bad call sequence\" } | cs = 0x20"
+  | "nie", "restart_frame" =>
+    "if cs < 0x20 { return base.\"#bad call sequence\" } | cs = 0x28"
+  | "nie", "skip_frame" =>
+    "cs = 0x20 | cs = 0x60"
+  | "png", "do_decode_frame" =>
+    "if (cs & 0x10) <> 0 { return base.\"#bad call sequence\" } else if cs >= 0x60 { return base.\"@end of data\" } else if cs <> 0x40 { this.do_decode_frame_config?(dst: nullptr, src: args.src) } | cs = 0x20"
+  | "png", "do_decode_frame_config" =>
+    "if (cs & 0x10) <> 0 { return base.\"#bad call sequence\" } else if cs == 0x20 { } else if cs < 0x20 { this.do_decode_image_config?(dst: nullptr, src: args.src) } else if cs == 0x28 { if POS <> args.src.position() { return base.\"#bad restart\" } } else if cs == 0x40 { this.skip_frame?(src: args.src) } else { return base.\"@end of data\" } | cs = 0x30 | cs = 0x60 | cs = 0x30 | cs = 0x40"
+  | "png", "do_decode_image_config" =>
+    "if cs <> 0x00 { return base.\"#bad call sequence\" } else if not this.seen_ihdr { magic = args.src.read_u64le?() if magic <> '\\x89PNG\\x0D\\x0A\\x1A\\x0A'le { return \"#bad header\" } magic = args.src.read_u64le?() if magic <> '\\x00\\x00\\x00\\x0DIHDR'le { if magic == '\\x00\\x00\\x00\\x04CgBI'le { return \"#unsupported CgBI extension\" } return \"#bad header\" } this.chunk_type_array[0] = 'I' this.chunk_type_array[1] = 'H' this.chunk_type_array[2] = 'D' this.chunk_type_array[3] = 'R' this.crc32.reset!() this.crc32.update_u32!(x: this.chunk_type_array[..]) while true { mark = args.src.mark() status =? this.decode_ihdr?(src: args.src) if not this.ignore_checksum { checksum_have = this.crc32.update_u32!(x: args.src.since(mark: mark)) } if status.is_ok() { break } yield? status } checksum_want = args.src.read_u32be?() if (not this.ignore_checksum) and (checksum_have <> checksum_want) { return \"#bad checksum\" } this.seen_ihdr = true } else if this.metadata_fourcc <> 0 { cs = 0x10 return base.\"@metadata reported\" } | cs = 0x10 | cs = 0x20"
+  | "png", "do_tell_me_more" =>
+    "if (cs & 0x10) == 0 { return base.\"#bad call sequence\" } | cs &= 0xEF | cs &= 0xEF"
+  | "png", "restart_frame" =>
+    "if cs < 0x20 { return base.\"#bad call sequence\" } else if (args.index >= (this.num_animation_frames_value as base.u64)) or ((args.index == 0) and (args.io_position <> this.first_config_io_position)) { return base.\"#bad argument\" } | cs = 0x28"
+  | "png", "skip_frame" =>
+    "cs = 0x20"
+  | "still", "do_decode_frame" =>
+    "if cs == 0x40 { } else if cs < 0x40 { this.do_decode_frame_config?(dst: nullptr, src: args.src) } else { return base.\"@end of data\" } | cs = 0x60"
+  | "still", "do_decode_frame_config" =>
+    "if cs == 0x20 { } else if cs < 0x20 { this.do_decode_image_config?(dst: nullptr, src: args.src) } else if cs == 0x28 { if POS <> args.src.position() { return base.\"#bad restart\" } } else if cs == 0x40 { cs = 0x60 return base.\"@end of data\" } else { return base.\"@end of data\" } | cs = 0x40"
+  | "still", "do_decode_image_config" =>
+    "if cs <> 0x00 { return base.\"#bad call sequence\" } | cs = 0x20"
+  | "still", "num_decoded_frame_configs" =>
+    "if cs > 0x20 { return 1 }"
+  | "still", "num_decoded_frames" =>
+    "if cs > 0x40 { return 1 }"
+  | "still", "restart_frame" =>
+    "if cs < 0x20 { return base.\"#bad call sequence\" } | cs = 0x28"
+  | _, _ => "no-such-function"
+
+/-- The functions that mention `this.call_sequence`, sorted by name. -/
+def srcFuncs (cls : String) : String :=
+  match cls with
+  | "gif" => "decode_ae,decode_up_to_id_part1,do_decode_frame,do_decode_frame_config,do_decode_image_config,do_tell_me_more,restart_frame,set_quirk,skip_frame"
+  | "nie" => "decode_animation_info,do_decode_frame,do_decode_frame_config,do_decode_image_config,restart_frame,skip_frame"
+  | "png" => "do_decode_frame,do_decode_frame_config,do_decode_image_config,do_tell_me_more,restart_frame,skip_frame"
+  | "still" => "do_decode_frame,do_decode_frame_config,do_decode_image_config,num_decoded_frame_configs,num_decoded_frames,restart_frame"
+  | _ => "no-such-class"
+
 end WuffsVerif.CallSeq
